@@ -559,3 +559,8 @@ _add(
     m("copy-skip-returns-unrehashed-destination", "redun/file.py", "            dest_file.update_hash()\n            return dest_file\n\n        if self.filesystem.name == \"local\"", "            return dest_file\n\n        if self.filesystem.name == \"local\"", "C30.1"),
     m("s3-listing-keys-unfiltered", "redun/file.py", "                if dir_key and obj[\"Key\"] != dir_key and not obj[\"Key\"].startswith(dir_key + \"/\"):\n                    continue\n", "", "C30.7"),
 )
+_add(
+    "C33",
+    m("status-memo-not-dropped-on-expire", D, "    event.listen(_model, \"expire\", _forget_status)\n", "", "C33.5"),
+    m("job-init-does-not-initialise-memo", D, "    def __init__(self, *args, **kwargs):\n        super().__init__(*args, **kwargs)\n        self._load()\n\n    @reconstructor\n    def _load(self) -> None:\n        self._status: str | None = None\n\n    def __repr__(self) -> str:\n        return \"Job(", "    @reconstructor\n    def _load(self) -> None:\n        self._status: str | None = None\n\n    def __repr__(self) -> str:\n        return \"Job(", "C33.5"),
+)
